@@ -387,6 +387,37 @@ def generic_job(agg, job, tier, seed):
             break
 
 
+def mtdiff_job(agg, job, tier, seed):
+    """C18 for workloads that have no deterministic trace (real threads): the same MT profile with all trace monitors on must
+    be silent on the all-features build whenever it is silent on the default-features build."""
+    res = {}
+    for b in ("none", "all"):
+        sub = Agg(agg.prop)
+        j = dict(job)
+        j["engine"] = "mt"
+        j["build"] = b
+        j["prop_filter"] = "all"
+        _generic_once(sub, j, tier, seed)
+        res[b] = sub
+        agg.scenarios += sub.scenarios
+        agg.events += sub.events
+        agg.nontrivial += sub.scenarios
+        agg.inconclusive.extend(sub.inconclusive)
+        agg.notes.extend(sub.notes)
+        for h in sub.hashes:
+            agg.hashes.add(h)
+        agg.engines.extend(sub.engines)
+    agg.add_obl({"C18.mt_same_verdict": min(res["none"].scenarios, res["all"].scenarios)})
+    if res["all"].viol and not res["none"].viol:
+        v = dict(res["all"].viol[0])
+        v["msg"] = f"the {','.join(job['profiles'])} real-thread workload is silent on the default-features build ({res['none'].scenarios} rounds) but with all features enabled: {v.get('clause')}: {v.get('msg')}"
+        v["clause"] = "C18.mt_same_verdict"
+        v["prop"] = "C18"
+        agg.viol.append(v)
+    elif res["none"].viol:
+        agg.notes.append(f"mtdiff: the default-features build already violates {res['none'].viol[0].get('clause')} (not a feature difference)")
+
+
 def _generic_once(agg, job, tier, seed, first=True, reps=1):
     prop = agg.prop
     binp = build(job.get("build", "all"))
@@ -457,24 +488,24 @@ LAWS = {"engine": "laws", "build": "all", "args": ([], []), "timeout": (120, 120
 PLANS = {
     "C01": [M(["general", "blocking", "notime"], 11, 100), S(["traffic", "backpressure", "refs"], 18000, 150000, mode="diff"), S(["timeouts", "backpressure"], 12000, 100000, seed_off=2000), S(["traffic", "backpressure", "kill"], 9000, 60000, build="none", seed_off=1000)],
     "C02": [M(["general", "blocking"], 6, 60), S(["traffic", "backpressure", "idle"], 18000, 150000, mode="diff"), S(["traffic", "backpressure"], 9000, 60000, build="none", seed_off=1000)],
-    "C03": [M(["tightrace"], 12, 150, fp_quick=True), M(["deathrace", "general", "blocking", "notime", "abort"], 13, 110), M(["reentrant"], 2, 10, seed_off=21), S(["traffic", "lifecycle", "kill", "faults", "timeouts"], 12000, 100000, mode="diff"), S(["kill", "lifecycle", "backpressure"], 9000, 60000, build="none", seed_off=1000)],
+    "C03": [M(["tightrace"], 12, 150, fp_quick=True), M(["deathrace", "general", "blocking", "notime", "abort"], 13, 110), M(["reentrant", "undriven"], 5, 20, seed_off=21), S(["traffic", "lifecycle", "kill", "faults", "timeouts"], 12000, 100000, mode="diff"), S(["kill", "lifecycle", "backpressure"], 9000, 60000, build="none", seed_off=1000)],
     "C04": [M(["dropspin"], 3, 20, seed_off=4), S(["lifecycle", "kill", "faults"], 18000, 150000), S(["lifecycle", "kill"], 9000, 60000, build="none", seed_off=1000)],
     "C05": [LAWS, M(["dropspin"], 4, 30), S(["lifecycle", "faults", "kill"], 18000, 150000), S(["lifecycle", "faults"], 9000, 60000, build="none", seed_off=1000)],
     "C06": [M(["general", "deathrace"], 6, 60), S(["kill", "backpressure", "lifecycle"], 18000, 150000, mode="diff"), S(["kill", "refs"], 12000, 60000, build="none", seed_off=1000)],
     "C07": [M(["dropspin"], 3, 20, seed_off=8), S(["refs", "idle", "lifecycle"], 18000, 150000, mode="diff"), S(["refs", "idle"], 9000, 60000, build="none", seed_off=1000)],
     "C08": [S(["idle", "kill", "traffic"], 18000, 150000), S(["idle", "kill"], 9000, 60000, build="none", seed_off=1000)],
     "C09": [P("default"), P("set", 5, reps=(25, 150)), P("set", 1, reps=(25, 150)), P("set", 2, reps=(25, 150)), P("set", 7, reps=(25, 150)), P("set", 11, reps=(25, 150)), P("set", 13, reps=(25, 150)), P("set", 17, reps=(25, 150)), P("set", 19, reps=(25, 150)), P("set", 23, reps=(25, 150)), P("set", 29, reps=(25, 150)), P("spawn-then-set", 3), P("zero"), S(["backpressure", "traffic"], 24000, 200000), S(["backpressure"], 12000, 80000, build="none", seed_off=1000)],
-    "C10": [LAWS, M(["blocking"], 8, 60), M(["starve"], 3, 30, seed_off=3), S(["timeouts", "kill"], 24000, 200000, mode="diff"), S(["timeouts"], 12000, 80000, build="none", seed_off=1000)],
+    "C10": [LAWS, M(["blocking"], 8, 60), M(["starve"], 3, 30, seed_off=3), M(["hogged"], 4, 30, seed_off=13), S(["timeouts", "kill"], 24000, 200000, mode="diff"), S(["timeouts"], 12000, 80000, build="none", seed_off=1000)],
     "C11": [MIRI, M(["spawnstorm", "abort"], 7, 60), M(["readers"], 4, 40, seed_off=9), S(["refs", "lifecycle", "traffic"], 18000, 150000, mode="diff"), S(["refs", "kill"], 9000, 60000, build="none", seed_off=1000)],
     "C12": [MIRI, S(["faults"], 30000, 250000), S(["deadlock"], 15000, 100000), S(["faults"], 12000, 80000, build="none", seed_off=1000)],
     "C13": [MIRI, M(["general", "blocking", "deathrace"], 9, 90), M(["reentrant"], 2, 10, seed_off=21), S(["traffic", "timeouts", "kill", "faults", "lifecycle"], 12000, 100000, mode="diff"), S(["timeouts", "kill"], 9000, 60000, build="none", seed_off=1000)],
     "C14": [M(["mutualask"], 4, 40), S(["deadlock"], 48000, 400000, perts=(2, 4)), S(["deadlock"], 12000, 100000, mode="erased", seed_off=300)],
     "C15": [MIRI, S(["deadlock"], 48000, 400000, perts=(2, 4), seed_off=500), S(["deadlock"], 12000, 100000, mode="erased", seed_off=800), S(["traffic", "faults"], 9000, 60000)],
-    "C16": [M(["blocking"], 5, 30), S(["traffic", "refs", "timeouts", "kill", "lifecycle", "backpressure", "idle", "faults"], 7500, 60000, mode="diff"), S(["refs", "traffic", "kill"], 6000, 40000, mode="diff", build="none", seed_off=1000)],
-    "C20": [MIRI, M(["readers"], 6, 60), M(["slow"], 2, 20, seed_off=5), M(["metricsrace"], 4, 30, seed_off=6), S(["metrics", "traffic", "kill", "faults"], 15000, 120000)],
+    "C16": [M(["blocking", "notime"], 7, 40), S(["traffic", "refs", "timeouts", "kill", "lifecycle", "backpressure", "idle", "faults"], 7500, 60000, mode="diff"), S(["refs", "traffic", "kill"], 6000, 40000, mode="diff", build="none", seed_off=1000)],
+    "C20": [MIRI, M(["readers"], 6, 60), M(["slow"], 2, 20, seed_off=5), M(["metricsrace", "abort"], 6, 40, seed_off=6), S(["metrics", "traffic", "kill", "faults"], 15000, 120000)],
     "C17": [M(["blocking"], 8, 90), M(["general"], 6, 60, seed_off=77), M(["hogged"], 5, 40, seed_off=13)],
     "C19": [M(["blocking", "general"], 6, 40), {"engine": "gen", "actors": (60, 400), "rounds": (1, 3)}, S(["traffic", "faults"], 9000, 60000)],
-    "C18": [{"engine": "featdiff", "profiles": ["traffic", "backpressure", "lifecycle", "kill", "refs", "idle", "timeouts", "faults", "metrics", "overlap"], "count": (1500, 20000)}],
+    "C18": [{"engine": "mtdiff", "profiles": ["notime"], "args": (["--profiles", "notime", "--secs", 3], ["--profiles", "notime", "--secs", 20]), "timeout": (240, 600)}, {"engine": "featdiff", "profiles": ["traffic", "backpressure", "lifecycle", "kill", "refs", "idle", "timeouts", "faults", "metrics", "overlap"], "count": (1500, 20000)}],
 }
 
 # minimum number of non-vacuous evaluations of the key clauses below which a run is inconclusive
@@ -565,6 +596,8 @@ def run_check(prop, tier, seed):
                 gen_job(agg, job, tier, seed)
             elif job["engine"] == "miri":
                 miri_job(agg, job, tier, seed)
+            elif job["engine"] == "mtdiff":
+                mtdiff_job(agg, job, tier, seed)
             else:
                 generic_job(agg, job, tier, seed)
     except Inconclusive as ex:
